@@ -38,8 +38,9 @@ def replay(hists):
 
 
 def is_d11(m):
-    """a captured-variable read that disagrees after the stack of the memory holding the captured frame has grown
-    (burst or frame push) since the capture: the known finding D11"""
+    """a captured-variable read that disagrees after the stack of the memory holding the captured frame may have been
+    reallocated since the capture (a burst or a frame of >= 100 slots in between) AND the disagreement at that step
+    disappears when the same history is replayed on a main stack that was grown once beforehand: the known finding D11"""
     h = m["mismatch"]["h"]
     step = m["step"]
     if h[step]["op"] != "getc":
@@ -47,7 +48,10 @@ def is_d11(m):
     caps = [i for i, o in enumerate(h[:step]) if o["op"] == "capture"]
     if not caps:
         return False
-    return any(o["op"] in ("burst", "call", "push") for o in h[caps[0]:step])
+    if not any((o["op"] == "burst" and o["a"] >= 100) or (o["op"] == "call" and o["a"] >= 100) for o in h[caps[0]:step]):
+        return False
+    again, _ = replay([{"h": h[:step + 1], "pregrow": 200000}])
+    return not again
 
 
 def nontrivial(h):
@@ -69,7 +73,7 @@ def run(tier, replay_path=None):
             return ck.finish()
         return semcheck.replay_file(ck, replay_path, cmp=("value", "residue"))
     d11 = [f for f in ck.findings.get("findings", []) if f["id"] == "D11"]
-    for fam in ("frames", "closure", "clone", "all"):
+    for fam in ("frames", "closure", "clone", "clonedeep", "all"):
         r = vlib.run_tlc("Memory", "Memory_%s_%s.cfg" % (fam, tier), timeout=3000)
         if r.violation:
             raise vlib.Infra("Memory.tla invariant failed (specification defect): " + r.violation)
